@@ -49,7 +49,7 @@ pub use decision_service::DecisionServiceEvaluator;
 use dmntk_common::{DmntkError, Result};
 use dmntk_feel::context::FeelContext;
 use dmntk_feel::values::{Value, Values};
-use dmntk_feel::{value_null, Evaluator, FeelType, Name, Scope};
+use dmntk_feel::{value_null, Evaluator, FeelType, FunctionBody, Name, Scope};
 use dmntk_model::model::{
   Context, DecisionTable, Expression, ExpressionInstance, FunctionDefinition, InformationItem, Invocation, ItemDefinition, ItemDefinitionType,
   LiteralExpression, NamedElement, Relation,
@@ -59,6 +59,7 @@ pub use input_data_context::InputDataContextEvaluator;
 pub use item_definition::ItemDefinitionEvaluator;
 pub use item_definition_context::ItemDefinitionContextEvaluator;
 pub use item_definition_type::ItemDefinitionTypeEvaluator;
+use std::sync::Arc;
 
 ///
 pub fn information_item_type(type_ref: &str, evaluator: &ItemDefinitionTypeEvaluator) -> Option<FeelType> {
@@ -322,27 +323,23 @@ fn build_decision_table_evaluator(scope: &Scope, decision_table: &DecisionTable)
 
 ///
 fn build_function_definition_evaluator(scope: &Scope, function_definition: &FunctionDefinition) -> Result<Evaluator> {
-  let mut parameters = vec![];
   let body = function_definition.body().as_ref().ok_or_else(err_empty_function_body)?;
-  let function_evaluator = build_expression_instance_evaluator(scope, body)?;
+  // formal parameters are visible (by name) while the body is being built
+  let mut formal_parameters = vec![];
+  let mut parameters_ctx = FeelContext::default();
   for parameter in function_definition.formal_parameters() {
     let name = parameter.feel_name().as_ref().ok_or_else(err_empty_feel_name)?.clone();
-    let value_expression = parameter.value_expression().as_ref().ok_or_else(err_empty_value_expression)?;
-    let evaluator = build_expression_instance_evaluator(scope, value_expression)?;
-    parameters.push((name, evaluator));
+    let feel_type = parameter.type_ref().as_ref().and_then(|type_ref| type_ref_to_feel_type(type_ref)).unwrap_or(FeelType::Any);
+    parameters_ctx.set_entry(&name, Value::FeelType(feel_type.clone()));
+    formal_parameters.push((name, feel_type));
   }
-  Ok(Box::new(move |scope: &Scope| {
-    let mut params_ctx = FeelContext::default();
-    parameters.iter().for_each(|(name, evaluator)| params_ctx.set_entry(name, evaluator(scope)));
-    if let Value::FunctionDefinition(_, body, result_type) = function_evaluator(scope) {
-      scope.push(params_ctx);
-      let value = body.evaluate(scope);
-      scope.pop();
-      result_type.coerced(&value)
-    } else {
-      value_null!("expected Value::FunctionDefinition in function definition evaluator")
-    }
-  }))
+  scope.push(parameters_ctx);
+  let body_evaluator = build_expression_instance_evaluator(scope, body);
+  scope.pop();
+  // the value of a boxed function definition is a function, its body is evaluated when the function is invoked
+  let function_body = FunctionBody::LiteralExpression(Arc::new(body_evaluator?));
+  let function_definition = Value::FunctionDefinition(formal_parameters, function_body, FeelType::Any);
+  Ok(Box::new(move |_: &Scope| function_definition.clone()))
 }
 
 ///
